@@ -325,6 +325,49 @@ install(exe)
 """, {'s.c': 'int s_fn(void) { return 5; }\n', 'm1.c': 'int s_fn(void); int m1(void) { return s_fn(); }\n',
       'm2.c': 'int s_fn(void); int m2(void) { return s_fn(); }\n',
       'main2.c': 'int m1(void); int m2(void); int main(void) { return m1() + m2() - 10; }\n'}, ['exe'], True),
+    # a shared library built on a static-only library whose code refers to its own exported objects (needs
+    # position-independent code in the static library)
+    'shared-on-static': ("""
+core = static_library('lib/core/core', ['core.c'])
+front = shared_library('lib/front/front', ['front.c'], libs=[core])
+exe = executable('bin/exe', ['main.c'], libs=[front])
+""", {'core.c': 'int core_state = 5;\nint core_get(void) { return core_state; }\nint core_fn(void) { return core_get(); }\n',
+      'front.c': 'int core_fn(void); int front_fn(void) { return core_fn(); }\n',
+      'main.c': 'int front_fn(void); int main(void) { return front_fn() - 5; }\n'}, ['bin/exe'], False),
+    # library directories where one is below the other (lib/ and lib/nested/), and a library next to the program
+    # listed before one elsewhere
+    'nested-library-directories': ("""
+topl = shared_library('lib/top', ['s.c'])
+deep = shared_library('lib/nested/deep', ['d.c'], version='1.0.0', soversion='1')
+mid = static_library('mid', ['m.c'], libs=[topl, deep])
+exe = executable('bin/exe', ['main.c'], libs=[mid])
+here = shared_library('here', ['h.c'])
+beside = executable('beside', ['main2.c'], libs=[here, deep])
+""", {'s.c': 'int s_fn(void) { return 5; }\n', 'd.c': 'int d_fn(void) { return 2; }\n', 'h.c': 'int h_fn(void) { return 1; }\n',
+      'm.c': 'int s_fn(void); int d_fn(void); int m_fn(void) { return s_fn() + d_fn(); }\n',
+      'main.c': 'int m_fn(void); int main(void) { return m_fn() - 7; }\n',
+      'main2.c': 'int h_fn(void); int d_fn(void); int main(void) { return h_fn() + d_fn() - 3; }\n'}, ['bin/exe', 'beside'], False),
+    # code of another language in a static library: the language runtime has to follow it on the command line
+    'mixed-language-static': ("""
+f = static_library('fl', files=['f.f90'])
+exe = executable('bin/exe', files=['main2.cpp'], libs=[f])
+cxx = static_library('cxx', files=['lib.cpp'])
+plain = executable('plain', files=['main.c'], libs=[cxx], lang='c')
+""", {'f.f90': 'function fsq(x) bind(C, name="fsq") result(r)\n  use iso_c_binding\n  real(c_double), value :: x\n'
+               '  real(c_double) :: r\n  character(len=20) :: buf\n  write(buf, \'(F8.2)\') x\n  r = x * x\nend function\n',
+      'main2.cpp': 'extern "C" double fsq(double);\nint main() { return fsq(3.0) == 9.0 ? 0 : 1; }\n',
+      'lib.cpp': '#include <string>\n#include <vector>\nextern "C" int cxx_len(void) { std::vector<std::string> v; '
+                 'v.push_back("abc"); return (int)v[0].size(); }\n',
+      'main.c': 'int cxx_len(void);\nint main(void) { return cxx_len() - 3; }\n'}, ['bin/exe', 'plain'], False, {},
+                              ['gfortran', 'g++']),
+    # a pre-built shared library in the source tree, required through a static library
+    'prebuilt-behind-static': ("""
+vendor = shared_library('vendor/libvendor.so')
+mid = static_library('mid', ['m.c'], libs=[vendor])
+exe = executable('bin/exe', ['main.c'], libs=[mid])
+""", {'m.c': 'int v_fn(void); int m_fn(void) { return v_fn(); }\n',
+      'main.c': 'int m_fn(void); int main(void) { return m_fn() - 9; }\n'}, ['bin/exe'], False,
+                               {'vendor/libvendor.so': 'int v_fn(void) { return 9; }\n'}),
 }
 
 
@@ -391,7 +434,11 @@ class LinkRun(Bounded):
             body, sources, exes, diamond = self.random_project(raw['random'])
             inst = True
         else:
-            body, sources, exes, inst = DAGS[raw['dag']]
+            body, sources, exes, inst = DAGS[raw['dag']][:4]
+        prebuilt = DAGS[raw['dag']][4] if 'dag' in raw and len(DAGS[raw['dag']]) > 4 else {}
+        needs = DAGS[raw['dag']][5] if 'dag' in raw and len(DAGS[raw['dag']]) > 5 else []
+        if any(shutil.which(t) is None for t in needs):
+            return None             # that compiler is not installed
         top = tempfile.mkdtemp(prefix='pyvc_link_')
         try:
             src, b = top + '/src', top + '/b'
@@ -414,6 +461,12 @@ class LinkRun(Bounded):
 
             def run(cmd, **kw):
                 return subprocess.run(cmd, env=env, capture_output=True, text=True, timeout=300, **kw)
+            for lib, csrc in prebuilt.items():
+                _os.makedirs(_os.path.dirname(src + '/' + lib), exist_ok=True)
+                with open(src + '/' + lib + '.c', 'w') as f:
+                    f.write(csrc)
+                if run(['cc', '-shared', '-fPIC', '-o', src + '/' + lib, src + '/' + lib + '.c']).returncode != 0:
+                    return None
             r = run([top + '/bin/bfg9000', 'configure-into', src, b, '--backend=make', '--no-resolve-packages',
                      '--prefix=' + top + '/pre'])
             if r.returncode != 0:
